@@ -50,6 +50,10 @@ pub fn family(f: usize) -> Vec<(&'static str, SGeom)> {
             ("rect lower-right/upper-left", SGeom::Rect((40, 5), (10, 25))),
             ("rect negative coordinates", SGeom::Rect((-40, -25), (-11, -6))),
             ("rect tall (vertical label)", SGeom::Rect((10, 5), (20, 85))),
+            // the label (truncated centre) lands on the shape's maximum edge
+            ("rect 1 unit wide at negative x", SGeom::Rect((-3, 0), (-2, 10))),
+            ("rect 1 unit tall at negative y", SGeom::Rect((0, -8), (30, -7))),
+            ("rect 1 unit wide, corners swapped", SGeom::Rect((-2, 10), (-3, 0))),
         ],
         1 => vec![("L (bbox centre outside)", SGeom::Poly(l.clone())), ("L from the reflex vertex", SGeom::Poly(rotate_cycle(&l, 3))), ("L clockwise", SGeom::Poly(reversed(&l)))],
         2 => vec![("U (bbox centre outside)", SGeom::Poly(u.clone())), ("U from an inner vertex", SGeom::Poly(rotate_cycle(&u, 3))), ("U reversed", SGeom::Poly(reversed(&u)))],
@@ -77,6 +81,10 @@ pub fn family(f: usize) -> Vec<(&'static str, SGeom)> {
             ("path 3 segments w2", SGeom::Path(vec![(0, 0), (40, 0), (40, 30), (10, 30)], 2)),
             ("path odd width", SGeom::Path(vec![(0, 0), (40, 0)], 3)),
             ("path unit first segment", SGeom::Path(vec![(0, 0), (1, 0), (1, 30)], 4)),
+            // the label (midpoint of the first segment) lies on the edge of the segment's rectangle
+            ("path width 1", SGeom::Path(vec![(0, 0), (100, 0), (100, 50)], 1)),
+            ("path width 1 drawn right-to-left at negative coordinates", SGeom::Path(vec![(-10, -5), (-51, -5), (-51, -40)], 1)),
+            ("path drawn top-to-bottom", SGeom::Path(vec![(0, 40), (0, 0), (30, 0)], 4)),
         ],
     }
 }
@@ -172,8 +180,23 @@ fn gen_lib(c: &mut Chooser) -> Case {
         }
         _ => leaf.shapes.push(focus),
     }
+    // a cell without any content (no shapes, no instances): alone, or placed by the first cell
+    let blank = c.cost(3, "blank-cell");
+    tags.push(["blank:none", "blank:unreferenced", "blank:instantiated"][blank]);
     let mut slots: Vec<Option<SCell>> = cells.into_iter().map(Some).collect();
-    let listed: Vec<SCell> = order.iter().map(|&i| slots[i].take().unwrap()).collect();
+    let mut listed: Vec<SCell> = order.iter().map(|&i| slots[i].take().unwrap()).collect();
+    if blank > 0 {
+        if blank == 2 {
+            let top = listed.iter_mut().find(|c| c.name == CELL_NAMES[0]).unwrap();
+            top.layout.as_mut().unwrap().insts.push(SInst { name: "iblank".into(), cell: "blank".into(), loc: (-500, 40), reflect: false, angle: None });
+        }
+        let bc = SCell { name: "blank".into(), layout: Some(SLayout::default()), abs: None };
+        if blank == 2 {
+            listed.insert(0, bc);
+        } else {
+            listed.push(bc);
+        }
+    }
     Case { spec: Spec { name: "rawlib".into(), units: UNITS[u], cells: listed }, tags }
 }
 
@@ -423,7 +446,7 @@ impl CaseDriver for C07Lib {
         require_tags(stats, &NET_TAGS)?;
         require_tags(stats, &LP_TAGS)?;
         require_tags(stats, &UNIT_TAGS)?;
-        require_tags(stats, &["cells:1", "cells:2", "cells:3", "inst:angle-Some(0)", "inst:second-placement", "inst:shared-leaf", "second:named-same-layer-other-purpose", "second:named-other-layer-same-place", "second:named-listed-first", "gds:label-inside-its-shape"])?;
+        require_tags(stats, &["cells:1", "cells:2", "cells:3", "inst:angle-Some(0)", "inst:second-placement", "inst:shared-leaf", "second:named-same-layer-other-purpose", "second:named-other-layer-same-place", "second:named-listed-first", "blank:unreferenced", "blank:instantiated", "gds:label-inside-its-shape"])?;
         require_outcomes(stats, &["ok"])
     }
 }
